@@ -272,6 +272,26 @@ fn check_inputs(inputs: &[String], kind: &str, st: &mut Stats) -> CheckResult {
             ));
         }
         if o.prints != e.prints && !input.contains("now()") {
+            // the recorded sum-reassociation class (`a + (b + c)` is echoed as `a + b + c`) shows in
+            // printed values too: same unit, numbers equal to rounding
+            let right_nested_sum = {
+                let t: String = input.chars().filter(|c| !c.is_whitespace()).collect();
+                t.contains("+(") || t.contains("-(")
+            };
+            let equal_up_to_rounding = o.prints.len() == e.prints.len()
+                && o.prints.iter().zip(&e.prints).all(|(x, y)| {
+                    x == y
+                        || match (split_displayed_quantity(x), split_displayed_quantity(y)) {
+                            (Some((a, ua)), Some((b, ub))) => ua == ub && rel_close(a, b, 1e-6),
+                            _ => false,
+                        }
+                });
+            if right_nested_sum && equal_up_to_rounding {
+                return Err(Failure::new(
+                    "echo-has-different-value:sum-reassociation",
+                    format!("prints differ in the rounding of a re-associated sum: {:?} vs {:?}; {}", o.prints, e.prints, here()),
+                ));
+            }
             return Err(Failure::new(classify(input, &echo, "echo-has-different-value"), format!("prints differ: {:?} vs {:?}; {}", o.prints, e.prints, here())));
         }
         // same definitions
